@@ -21,7 +21,7 @@ class C14Run(E2Run):
     prop = "C14"
 
     def profile(self) -> Dict:
-        return {"topologies": ["lan"], "max_hosts_per_subnet": 2, "tight_links": 0.0, "initial_files": 1.0, "use_defaults_block": 1.0, "default_durations": [0, 1, 2, 3, 5], "durations": [0, 1, 2, 3, 5], "avoid": ["listen_on_ports", "routing_loop"]}
+        return {"topologies": ["lan"], "max_hosts_per_subnet": 2, "tight_links": 0.0, "initial_files": 1.0, "use_defaults_block": 1.0, "default_durations": [0, 1, 2, 3, 5], "durations": [0, 1, 2, 3, 5], "avoid": ["listen_on_ports"]}
 
     def tweak_scenario(self):
         # node scan durations small enough to complete within a run
